@@ -165,12 +165,16 @@ ASMJIT_FAVOR_SIZE Error FuncFrame::finalize() noexcept {
 
   // Make frame pointer dirty if the function uses it.
   if (has_fp) {
+    // The prolog always pushes the frame pointer (and the link register), so it has to be counted as saved even if
+    // a custom calling convention doesn't list it as preserved.
     _dirty_regs[RegGroup::kGp] |= Support::bit_mask<RegMask>(kFp);
+    _preserved_regs[RegGroup::kGp] |= Support::bit_mask<RegMask>(kFp);
 
     // Currently required by ARM, if this works differently across architectures we would have to generalize most
     // likely in CallConv.
     if (kLr != Reg::kIdBad) {
       _dirty_regs[RegGroup::kGp] |= Support::bit_mask<RegMask>(kLr);
+      _preserved_regs[RegGroup::kGp] |= Support::bit_mask<RegMask>(kLr);
     }
   }
 
